@@ -27,6 +27,15 @@ Theorem C13_text_spec : forall filt df compiles matches rfc3339 decode ms fs con
 Proof. exact collect_text_ok. Qed.
 Print Assumptions C13_text_spec.
 
+(* Membership reading of the comprehension: a record is among the found ones iff it is an occurrence of a tracked
+   name: some line, some filter, some match with at least two groups whose trimmed first group is tracked. *)
+Theorem C13_text_exact : forall filt matches rfc3339 ms fs lines x,
+  In x (flat_map (spec_line filt matches rfc3339 ms fs) lines) <->
+  exists l f w n v r, In l lines /\ In f fs /\ In (w :: n :: v :: r) (matches f l) /\ In (trim_space n) ms /\
+                      x = MLog (TsText (line_timestamp rfc3339 l)) (trim_space n) (trim_space v).
+Proof. exact text_found_exact. Qed.
+Print Assumptions C13_text_exact.
+
 (* The pre-filter ("skip lines that contain no tracked name") never drops a line that has a match for a tracked name. *)
 Theorem C13_prefilter_sound : forall filt matches rfc3339 ms fs l x,
   groups_substr filt matches -> In x (spec_line filt matches rfc3339 ms fs l) -> is_metric_line ms l = true.
@@ -43,6 +52,32 @@ Theorem C13_json_spec : forall filt df compiles matches rfc3339 decode ms fs con
    collect filt df compiles matches rfc3339 decode JSON ms fs content = Err 1%nat).
 Proof. exact collect_json_total. Qed.
 Print Assumptions C13_json_spec.
+
+(* Membership reading for JSON: a record is found iff some non-empty line decodes to an object in which a tracked
+   name has a string value; its timestamp is the line's.  With no tracked name listed twice a line never yields the
+   same record twice. *)
+Theorem C13_json_exact : forall rfc3339 decode ms lines x,
+  In x (flat_map (spec_json_line rfc3339 decode ms) (filter nonempty lines)) <->
+  exists l kvs m v, In l lines /\ l <> [] /\ decode l = JObj kvs /\ In m ms /\ jlookup m kvs = Some (JString v) /\
+                    x = MLog (json_timestamp rfc3339 kvs) m v.
+Proof. exact json_found_exact. Qed.
+Print Assumptions C13_json_exact.
+
+Theorem C13_json_once : forall rfc3339 ms kvs, NoDup ms -> NoDup (json_records rfc3339 ms kvs).
+Proof. exact json_records_nodup. Qed.
+Print Assumptions C13_json_once.
+
+(* Timestamp of a JSON line: the "timestamp" string if time.Parse accepts it; for a number the instant computed by
+   [epoch_instant] (see the epoch theorems); the zero time otherwise (absent, empty, invalid, bool/null/array/object,
+   number that ParseInt rejects). *)
+Theorem C13_timestamp_json : forall rfc3339 kvs,
+  match jlookup timestamp_key kvs with
+  | Some (JString s) => json_timestamp rfc3339 kvs = if nonempty s && rfc3339 s then TsText s else TsText zero_time
+  | Some (JNumber repr) => json_timestamp rfc3339 kvs = match epoch_instant repr with Some z => TsUnix z | None => TsText zero_time end
+  | _ => json_timestamp rfc3339 kvs = TsText zero_time
+  end.
+Proof. exact json_timestamp_cases. Qed.
+Print Assumptions C13_timestamp_json.
 
 (* Known finding json-duplicate-metric: one JSON line, one occurrence per name, yet a record is reported twice. *)
 Theorem C13_json_dup_refuted :
@@ -161,3 +196,14 @@ Proof.
     apply str_eqb_eq in E3. subst l. apply containsb_spec.
     repeat (destruct Hk as [<-|Hk]; [repeat (destruct Hg as [<-|Hg]; [vm_compute; reflexivity|]); destruct Hg|]). destruct Hk.
 Qed.
+
+(* The transcription of time.Unix(sec, nsec).UTC().Format(RFC3339Nano) reproduces the values pinned by the repo's
+   unit test (file-metricscollector_test.go) and the zero time; beyond such samples it is covered by the correspondence only. *)
+Example C13_format_samples :
+  format_instant (1638422847 * 10 ^ 9 + 28721) = B "2021-12-02T05:27:27.000028721Z" /\
+  format_instant (1638422847 * 10 ^ 9 + 287801) = B "2021-12-02T05:27:27.000287801Z" /\
+  format_instant (1638422847 * 10 ^ 9) = B "2021-12-02T05:27:27Z" /\
+  format_instant (-62135596800 * 10 ^ 9) = zero_time /\
+  epoch_instant (B "1638422847.28721") = Some (1638422847 * 10 ^ 9 + 28721).
+Proof. repeat split; vm_compute; reflexivity. Qed.
+Print Assumptions C13_format_samples.
